@@ -170,11 +170,11 @@ parser! {
 
     // Lists of separated items with required ending separator
     rule periodsep<T>(x: rule<T>) -> Vec<T> = v:(x() ** (_ period() _)) _ period() {v}
-    rule periodsep_oneplus_no_trailing<T>(x: rule<T>) -> Vec<T> = v:(x() ++ period()) {v}
+    rule periodsep_oneplus_no_trailing<T>(x: rule<T>) -> Vec<T> = v:(x() ++ (_ period() _)) {v}
     rule periodsep_no_trailing<T>(x: rule<T>) -> Vec<T> = v:(x() ** (_ period() _)) {v}
     rule semisep<T>(x: rule<T>) -> Vec<T> = v:(x() ** (_ semicolon() _)) _ semicolon() {v}
-    rule semisep_oneplus<T>(x: rule<T>) -> Vec<T> = v:(x() ++ (_ semicolon() _)) semicolon() {v}
-    rule commasep_oneplus<T>(x: rule<T>) -> Vec<T> = v:(x() ++ (_ comma() _)) comma() {v}
+    rule semisep_oneplus<T>(x: rule<T>) -> Vec<T> = v:(x() ++ (_ semicolon() _)) _ semicolon() {v}
+    rule commasep_oneplus<T>(x: rule<T>) -> Vec<T> = v:(x() ++ (_ comma() _)) _ comma() {v}
 
     // TODO this should be a list of standard function block names
     rule STANDARD_FUNCTION_BLOCK_NAME() = id_eq("END_VAR")
@@ -426,7 +426,7 @@ parser! {
     }
     rule subrange_specification__with_range() -> SubrangeSpecificationKind
       = type_name:integer_type_name() _ tok(TokenType::LeftParen) _ subrange:subrange() _ tok(TokenType::RightParen) { SubrangeSpecificationKind::Specification(SubrangeSpecification{ type_name, subrange }) }
-    rule subrange() -> Subrange = start:signed_integer() tok(TokenType::Range) end:signed_integer() { Subrange{start, end} }
+    rule subrange() -> Subrange = start:signed_integer() _ tok(TokenType::Range) _ end:signed_integer() { Subrange{start, end} }
 
     rule enumerated_type_declaration__with_value() -> EnumerationDeclaration =
       type_name:enumerated_type_name() _ tok(TokenType::Colon) _ spec_init:enumerated_spec_init__with_value() {
@@ -488,7 +488,7 @@ parser! {
       ArraySpecificationKind::Subranges(ArraySubranges { ranges, type_name } )
     }
     rule array_initialization() -> Vec<ArrayInitialElementKind> = tok(TokenType::LeftBracket) _ init:array_initial_elements() ** (_ tok(TokenType::Comma) _ ) _ tok(TokenType::RightBracket) { init }
-    rule array_initial_elements() -> ArrayInitialElementKind = size:integer() _ tok(TokenType::LeftParen) ai:array_initial_element()? tok(TokenType::RightParen) { ArrayInitialElementKind::repeated(size, ai) } / array_initial_element()
+    rule array_initial_elements() -> ArrayInitialElementKind = size:integer() _ tok(TokenType::LeftParen) _ ai:array_initial_element()? _ tok(TokenType::RightParen) { ArrayInitialElementKind::repeated(size, ai) } / array_initial_element()
     // TODO array_initial_element requires structure_initialization | array_initialization
     rule array_initial_element() -> ArrayInitialElementKind = c:constant() { ArrayInitialElementKind::Constant(c) } / e:enumerated_value() { ArrayInitialElementKind::EnumValue(e) }
     rule structure_type_declaration__with_constant() -> DataTypeDeclarationKind =
@@ -646,7 +646,7 @@ parser! {
     //rule symbolic_variable() -> SymbolicVariableKind =
     //  multi_element_variable()
     //  / name:variable_name() { SymbolicVariableKind::Named(NamedVariable{name}) }
-    rule symbolic_variable() -> SymbolicVariableKind = name:identifier() elements:(tok(TokenType::Period) id:identifier() { Element::StructSelector(id) } / sub:subscript_list() {Element::ArraySelector(sub)})* {
+    rule symbolic_variable() -> SymbolicVariableKind = name:identifier() elements:(_ tok(TokenType::Period) _ id:identifier() { Element::StructSelector(id) } / _ sub:subscript_list() {Element::ArraySelector(sub)})* {
       // Start by assuming that the top is just a named variable
       let mut head = SymbolicVariableKind::Named(NamedVariable { name });
 
@@ -872,7 +872,7 @@ parser! {
      }
     rule global_var_spec() -> (Vec<Id>, Option<AddressAssignment>) = names:global_var_list() {
       (names, None)
-    } / global_var_name()? location() {
+    } / global_var_name()? _ location() {
       // TODO this is clearly wrong, but it feel like the spec is wrong here
       (vec![Id::from("")], None)
     }
@@ -944,8 +944,8 @@ parser! {
       sr:subrange_specification__with_range() { VariableSpecificationKind::Subrange(sr) }
       / e:enumerated_specification() { VariableSpecificationKind::Enumerated(e) }
       / a:array_specification() { VariableSpecificationKind::Array(a) }
-      / tok:tok(TokenType::String) length:(_ tok(TokenType::LeftBracket) _ l:integer() tok(TokenType::RightBracket) { l })? { VariableSpecificationKind::String(StringSpecification{ width: StringType::String, length, keyword_span: tok.span.clone(), }) }
-      / tok:tok(TokenType::WString) length:(_ tok(TokenType::LeftBracket) _ l:integer() tok(TokenType::RightBracket) { l })? { VariableSpecificationKind::String(StringSpecification{ width: StringType::WString, length, keyword_span: tok.span.clone(), }) }
+      / tok:tok(TokenType::String) length:(_ tok(TokenType::LeftBracket) _ l:integer() _ tok(TokenType::RightBracket) { l })? { VariableSpecificationKind::String(StringSpecification{ width: StringType::String, length, keyword_span: tok.span.clone(), }) }
+      / tok:tok(TokenType::WString) length:(_ tok(TokenType::LeftBracket) _ l:integer() _ tok(TokenType::RightBracket) { l })? { VariableSpecificationKind::String(StringSpecification{ width: StringType::WString, length, keyword_span: tok.span.clone(), }) }
       / et:elementary_type_name() { VariableSpecificationKind::Simple(et.into()) }
       / id:type_name() { VariableSpecificationKind::Ambiguous(id) }
 
@@ -1039,7 +1039,7 @@ parser! {
         elements
       }
     }
-    rule initial_step() -> Step = tok(TokenType::InitialStep) _ name:step_name() _ tok(TokenType::Colon) _ action_associations:action_association() ** (_ tok(TokenType::Semicolon) _) tok(TokenType::EndStep) {
+    rule initial_step() -> Step = tok(TokenType::InitialStep) _ name:step_name() _ tok(TokenType::Colon) _ action_associations:action_association() ** (_ tok(TokenType::Semicolon) _) _ tok(TokenType::EndStep) {
       Step{
         name,
         action_associations,
@@ -1169,7 +1169,7 @@ parser! {
       / resource_name:(r:resource_name() tok(TokenType::Period) { r })? program_name:(p:program_name() tok(TokenType::Period) { p })? fb_name:periodsep(<fb_name()>) variable:symbolic_variable() {
         AccessPathKind::Symbolic(SymbolicAccessPath { resource_name, program_name, fb_name, variable })
       }
-    rule global_var_reference() -> GlobalVarReference =  resource_name:(r:resource_name() tok(TokenType::Period) { r })? name:global_var_name() s:(tok(TokenType::Period) s:structure_element_name() { s } )? {
+    rule global_var_reference() -> GlobalVarReference =  resource_name:(r:resource_name() _ tok(TokenType::Period) _ { r })? name:global_var_name() s:(_ tok(TokenType::Period) _ s:structure_element_name() { s } )? {
       GlobalVarReference {
         resource_name,
         global_var_name: name,
@@ -1255,7 +1255,7 @@ parser! {
       / dv:direct_variable() { ProgramConnectionSinkKind::DirectVariable(dv) }
     rule instance_specific_initializations() -> Vec<InstanceInitKind> = tok(TokenType::VarConfig) _ init:semisep_oneplus(<instance_specific_init()>) _ tok(TokenType::EndVar) { init }
     rule instance_specific_init() -> InstanceInitKind = instance_specific_init__fb_init() / instance_specific_init__located()
-    rule instance_specific_init__located() -> InstanceInitKind = resource_name:resource_name() tok(TokenType::Period) program_name:program_name() tok(TokenType::Period) fb_path:periodsep_no_trailing(<identifier()>) _ address:location()? _ tok(TokenType::Colon) _ initializer:located_var_spec_init() {
+    rule instance_specific_init__located() -> InstanceInitKind = resource_name:resource_name() _ tok(TokenType::Period) _ program_name:program_name() _ tok(TokenType::Period) _ fb_path:periodsep_no_trailing(<identifier()>) _ address:location()? _ tok(TokenType::Colon) _ initializer:located_var_spec_init() {
       InstanceInitKind::LocatedVarInit(LocatedVarInit {
         resource_name,
         program_name,
@@ -1264,7 +1264,7 @@ parser! {
         initializer,
       })
     }
-    rule instance_specific_init__fb_init() -> InstanceInitKind = resource_name:resource_name() tok(TokenType::Period) program_name:program_name() tok(TokenType::Period) fb_path:periodsep_oneplus_no_trailing(<identifier()>) _ tok(TokenType::Colon) _ type_name:function_block_type_name() _ tok(TokenType::Assignment) _ initializer:structure_initialization() {
+    rule instance_specific_init__fb_init() -> InstanceInitKind = resource_name:resource_name() _ tok(TokenType::Period) _ program_name:program_name() _ tok(TokenType::Period) _ fb_path:periodsep_oneplus_no_trailing(<identifier()>) _ tok(TokenType::Colon) _ type_name:function_block_type_name() _ tok(TokenType::Assignment) _ initializer:structure_initialization() {
       InstanceInitKind::FunctionBlockInit(FunctionBlockInit {
         resource_name,
         program_name,
